@@ -452,11 +452,15 @@ def crash_points(full):
     ords = ordinals(starts)
     evs = [e for e in full["events"] if e["call"] not in ("exit", "crash")]
     pts = []
-    for k, e in enumerate(evs):
+    cls = 0        # number of state-changing calls before the boundary: boundaries with equal cls
+    for k, e in enumerate(evs):   # leave the same abstract file system behind
         s = e["start"]
+        mut = e["call"] not in ("observe",)
         pts.append({"k": k, "name": starts[s][1], "when_g": ords[s][0], "when_t": ords[s][1],
-                    "mutating": e["call"] not in ("observe",)})
-    pts.append({"k": len(evs), "name": "exit_group", "when_g": 1, "when_t": 1, "mutating": True})
+                    "mutating": mut, "cls": cls})
+        if mut:
+            cls += 1
+    pts.append({"k": len(evs), "name": "exit_group", "when_g": 1, "when_t": 1, "mutating": True, "cls": cls})
     return pts
 
 
@@ -475,14 +479,20 @@ def enumerate_crashes(rn, case, full, all_points, deadline, stats, max_attempts=
     for p in wanted:
         if p["k"] in got:
             continue
-        cands = [p["when_t"]] + ([p["when_g"]] if p["when_g"] != p["when_t"] else [])
-        tried = set()
+        # The counter is per thread.  If the main goroutine has stayed on the thread that did the
+        # runtime start-up, the ordinal over all threads (when_g) is right; if it moved, the ordinal
+        # is what the killed run's own log shows for that call.  Outcomes vary from run to run, so
+        # guesses are repeated.
+        learned = None
         attempts = 0
-        while cands and attempts < max_attempts and time.time() < deadline:
-            w = cands.pop(0)
-            if w in tried or w < 1:
-                continue
-            tried.add(w); attempts += 1
+        while attempts < max_attempts and time.time() < deadline:
+            if attempts in (0, 1, 4) or learned is None and attempts != 2:
+                w = p["when_g"]
+            elif learned is not None:
+                w = learned
+            else:
+                w = p["when_t"]
+            attempts += 1
             res = rn.run(case, inject=(p["name"], w))
             stats["crash_runs"] += 1
             k2 = reached_prefix(res)
@@ -493,12 +503,7 @@ def enumerate_crashes(rn, case, full, all_points, deadline, stats, max_attempts=
             stats["inject_missed"] += 1
             evs = [e for e in res["events"] if e["call"] not in ("exit", "crash")]
             if (k2 is None or k2 > p["k"]) and p["k"] < len(evs):
-                s0 = evs[p["k"]]["start"]
-                cands.insert(0, ordinals(res["starts"])[s0][1])     # this run's own per-thread ordinal
-                cands.append(w - 1)
-            else:
-                cands.insert(0, w + 1)
-                cands.append(w + 2)
+                learned = ordinals(res["starts"])[evs[p["k"]]["start"]][1]
     return got, [p["k"] for p in wanted]
 
 
@@ -601,7 +606,7 @@ def ev_class(case, ev):
     c = ev["call"]
     if c == "open":
         fl = "|".join(sorted(x for x in ev["flags"] if x not in ("O_CLOEXEC", "O_LARGEFILE", "O_NONBLOCK")))
-        return "open(%s, %s, %04o)" % (pc(ev["path"]), fl, ev["mode"])
+        return "open(%s, %s)" % (pc(ev["path"]), fl)
     if c == "rename":
         return "rename(%s -> %s)" % (pc(ev["from"]), pc(ev["to"]))
     if c in ("unlink", "chmod"):
@@ -618,7 +623,7 @@ def judge(ck, runs, stats):
     report, drop the rejected run and continue with the rest (a few times)."""
     pending = list(runs)
     rounds = 0
-    while pending and rounds < 6:
+    while pending and rounds < 3:
         rounds += 1
         for r in pending:
             if r["res"]["unsupported"]:
@@ -664,7 +669,7 @@ def judge(ck, runs, stats):
         evs = [r["case"].header(tid)] + r["res"]["events"]
         at = min(max(reached, a), b) - a          # index into evs of the event with no enabled action
         ev = evs[at]
-        diag = diagnose(ck, r)
+        diag = diagnose(ck, r) if stats["rejected"] == 0 else ""
         key = "trace rejected by ShfmtWrite at %s%s" % (ev_class(r["case"], ev), (" -> " + diag) if diag else "")
         stats["rejected"] += 1
         ck.cov["evaluations"] += 1
@@ -768,7 +773,7 @@ def crash_selection(ck, cases):
     rng.shuffle(rest)
     if ck.tier == "quick":
         return full[:6], rest[:8]
-    return full + rest[:8], rest[8:60]
+    return full + rest[:5], rest[5:35]
 
 
 def full_run_order(ck, cases, sel):
@@ -788,8 +793,13 @@ def full_run_order(ck, cases, sel):
 
 
 JOBS = 4
-BUDGET = {"quick": {"full_s": 35, "full_max": 80, "crash_s": 60},
-          "thorough": {"full_s": 300, "full_max": 100000, "crash_s": 600}}
+BUDGET = {"quick": {"full_s": 25, "full_max": 80, "crash_s": 45},
+          "thorough": {"full_s": 240, "full_max": 100000, "crash_s": 420}}
+
+
+def progress(msg):
+    import sys
+    print("[c35 %s] %s" % (time.strftime("%H:%M:%S"), msg), file=sys.stderr, flush=True)
 
 
 def run(ck):
@@ -797,6 +807,7 @@ def run(ck):
     if shutil.which("strace") is None:
         raise vlib.Inconclusive("strace not installed")
     vecs = model_runs(ck)
+    progress("model done")
     if not vecs:
         raise vlib.Inconclusive("model emitted no scenarios")
     work = vlib.scratch("c35-")
@@ -834,6 +845,7 @@ def run(ck):
                 if res is not None:
                     fulls[c.idx] = res
                     add(c, res, None)
+        progress("full runs done: %d" % len(fulls))
         ck.notes["scenarios_in_model"] = len(cases)
         ck.notes["full_runs"] = len(fulls)
         ck.notes["full_runs_s"] = round(time.time() - t0, 1)
@@ -857,9 +869,28 @@ def run(ck):
                 planned[c.idx] = wanted
                 for k in sorted(got):
                     add(c, got[k][0], got[k][1])
+        # further passes over boundaries of the all-boundaries cases that were not hit yet
+        reached_now = {}
+        for r in runs:
+            if r["point"] is not None:
+                reached_now.setdefault(r["case"].idx, set()).add(r["point"]["k"])
+        for rnd in range(3 if ck.tier == "thorough" else 1):
+            for c in sel_full:
+                if c.idx not in planned:
+                    continue
+                miss = set(planned[c.idx]) - reached_now.get(c.idx, set())
+                if not miss or time.time() > deadline + (120 if ck.tier == "thorough" else 10):
+                    continue
+                got, _ = enumerate_crashes(rn, c, fulls[c.idx], True, deadline + (120 if ck.tier == "thorough" else 10),
+                                           stats, max_attempts=8, only=miss)
+                for k in sorted(got):
+                    if k not in reached_now.get(c.idx, set()):
+                        reached_now.setdefault(c.idx, set()).add(k)
+                        add(c, got[k][0], got[k][1])
         ck.notes["crash_runs"] = stats["crash_runs"]
         ck.notes["crash_runs_s"] = round(time.time() - t1, 1)
         ck.notes["crash_budget_exhausted"] = time.time() > deadline
+        progress("crash runs done: %d" % stats["crash_runs"])
         t2 = time.time()
         judge(ck, runs, stats)
         ck.notes["judge_s"] = round(time.time() - t2, 1)
@@ -893,8 +924,23 @@ def run(ck):
             "writes are sequential (lseek/pwrite on a traced descriptor have no action and would be rejected)",
             "root user, Linux, ext4 (+ tmpfs for the cross-device TMPDIR variant), GOMAXPROCS default",
         ]
-        if ck.tier == "thorough" and (missing or ck.notes["crash_budget_exhausted"]):
-            raise vlib.Inconclusive("crash points not reached: %s" % json.dumps(missing)[:500])
+        # Hard requirement (thorough): for the all-boundaries scenarios every distinct abstract file-system
+        # state (= every maximal run of boundaries between two state-changing calls) was hit at least once.
+        # Single boundaries inside such a run can stay unreached when the scheduler keeps moving the main
+        # goroutine between threads (strace counts per thread); they are listed in crash_points_missing.
+        uncovered = {}
+        for c in sel_full:
+            if c.idx not in planned:
+                uncovered[c.idx] = "not enumerated (time budget)"
+                continue
+            pts = {p["k"]: p["cls"] for p in crash_points(fulls[c.idx])}
+            got = {pts[k] for k in stats["reached"].get(c.idx, set()) if k in pts}
+            miss = sorted(set(pts.values()) - got)
+            if miss:
+                uncovered[c.idx] = miss
+        ck.notes["crash_state_classes_uncovered"] = {str(k): v for k, v in uncovered.items()}
+        if ck.tier == "thorough" and uncovered:
+            raise vlib.Inconclusive("abstract states of the all-boundaries scenarios never hit by a kill: %s" % json.dumps(uncovered)[:500])
     finally:
         shutil.rmtree(work, ignore_errors=True)
 
